@@ -224,6 +224,7 @@ fn classify_msg(status: i64, msg: &str) -> String {
     } else if m.starts_with("Invalid time string")
         || m.starts_with("Unrecognized integer time magnitude")
         || m.starts_with("Unsupported numeric time value")
+        || m.starts_with("Float time value out of range")
         || m.starts_with("Time field must be a number or string")
     {
         "ETime"
